@@ -356,7 +356,10 @@ def read_csv(filename, has_colnames=True, archive=None,
                     cn2 = re.sub(", *", "-", cn2)
                     linecols = re.sub(re.escape(cn), cn2, linecols)
 
-            cns = linecols.strip().split(",")
+            # Only the line terminator is removed: blanks at the start
+            # of the first name or the end of the last one belong
+            # to the names (to_csv writes them as they are)
+            cns = linecols.rstrip("\r\n").split(",")
         else:
             cns = kwargs["names"]
             kwargs.pop("names")
